@@ -1,3 +1,48 @@
-From Cache Require Import Base Failover.
-Theorem C03_placeholder : True. Proof. exact I. Qed.
-Print Assumptions C03_placeholder.
+(* C03 — a lone Get follows the documented stale/failure decision table. Statements only. *)
+From Cache Require Import Base Failover FailoverRun FailoverObs FailoverTable.
+
+(* [lone_outcome] RUNS the interleaving model of C01 (one Get, then its background build if it starts
+   one) and reads the outcome off the ghost log: returned value or error, whether the builder ran and
+   whether it ran before the return, and the backend writes with the TTL they carried.
+   [spec_table] is the table transcribed from README bullets 2-7 (FailoverObs.v / DESIGN Appendix B).
+   They agree for BOTH answers of the staleness test, every API variant, SyncUpdate, SyncRead, FailHard,
+   every MaxStaleness, FailedUpdateTTL enabled (any positive value) or disabled, every UpdateTTL, with or
+   without debug logger / warn logger / stats tracker, every context TTL cell and builder TTL updates,
+   failure cache empty or holding an error, every entry state (absent, fresh v, expired v at any instant),
+   every builder result, every value (the legacy nil test computes on 0 / positive / negative tokens). *)
+Theorem C03_table : forall stale_ok v su sr fh ms ft_on ftp uttl dbg wrn st cell hit now rd built upd errexp ec,
+  classify_fe (fun _ _ _ => stale_ok) ms now rd = Some ec ->
+  lone_outcome (fun _ _ _ => stale_ok) nil_impl (mk_cfg v su sr fh ms ft_on ftp uttl dbg wrn st) cell
+               (errs_of (if ft_on then hit else None)) (mkOrc now rd None built upd errexp)
+  = Some (spec_table nil_impl v su fh uttl (cell_ttl (apply_upd cell upd)) ec (if ft_on then hit else None) built).
+Proof. exact lone_table. Qed.
+Print Assumptions C03_table.
+
+(* clauses of the property, read off the table *)
+Theorem C03_fresh_no_build : forall v su fh uttl ttl x hit built,
+  spec_table nil_impl v su fh uttl ttl (Fresh x) hit built = mkOutcome (Some x) None false false [].
+Proof. reflexivity. Qed.
+Print Assumptions C03_fresh_no_build.
+
+Theorem C03_too_stale_never_served_on_success : forall v su fh uttl ttl x u,
+  spec_table nil_impl v su fh uttl ttl (TooStale x) None (inl u) = mkOutcome (Some u) None true true [(u, ttl)].
+Proof. reflexivity. Qed.
+Print Assumptions C03_too_stale_never_served_on_success.
+
+Theorem C03_fail_serves_previous_unless_failhard : forall v su uttl ttl p n,
+  (* a non-nil previous value, too stale or not, is served when the build fails and FailHard is off *)
+  oc_val (spec_table nil_impl v su false uttl ttl (TooStale (Z.pos p)) None (inr n)) = Some (Z.pos p) /\
+  oc_val (spec_table nil_impl v su false uttl ttl (StaleOK (Z.pos p)) None (inr n)) = Some (Z.pos p) /\
+  (* with FailHard the builder error is returned after a synchronous build *)
+  oc_err (spec_table nil_impl v su true uttl ttl (TooStale (Z.pos p)) None (inr n)) = Some (EOther n) /\
+  oc_err (spec_table nil_impl v true true uttl ttl (StaleOK (Z.pos p)) None (inr n)) = Some (EOther n) /\
+  (* nothing to fall back to: the builder error *)
+  oc_err (spec_table nil_impl v su false uttl ttl Absent None (inr n)) = Some (EOther n).
+Proof. intros. destruct v, su; repeat split; reflexivity. Qed.
+Print Assumptions C03_fail_serves_previous_unless_failhard.
+
+Theorem C03_stale_served_immediately_in_background_mode : forall v fh uttl ttl x built,
+  let o := spec_table nil_impl v false fh uttl ttl (StaleOK x) None built in
+  oc_val o = Some x /\ oc_built o = true /\ oc_before o = false.
+Proof. intros. destruct built; repeat split; reflexivity. Qed.
+Print Assumptions C03_stale_served_immediately_in_background_mode.
